@@ -137,7 +137,11 @@ def worker():
                         if got != [list(r) for r in want]:
                             res["mismatch"].append({**sig, "kind": "simulation", "side": side, "hist": hist, "got": got, "want": want})
         except Exception as e:
-            res["mismatch"].append({**sig, "kind": "raised", "hist": hist, "err": type(e).__name__ + ": " + str(e)[:200]})
+            # F20 (known finding of C19, see known_findings.json): a recording of a state of a channel that was deleted afterwards
+            # makes integrate raise KeyError - on either module, copied or not
+            dangling = any(str(r[1]) in ("A_s", "i_A") and "A" not in side["reg"] for side in (st["a"], st["b"]) for r in side["recs"])
+            res["mismatch"].append({**sig, "kind": "raised", "hist": hist, "err": type(e).__name__ + ": " + str(e)[:200],
+                                    "records_state_of_deleted_channel": bool(dangling and "KeyError" in type(e).__name__)})
         res["histories"] += 1
 
     # modules beyond the probe cell: SWC cell (radius functions), network with synapses, trainables, groups, clamps
@@ -264,7 +268,7 @@ def main():
         for k in ("histories", "grads", "sims", "scenarios"):
             tot[k] += o[k]
         for m in o["mismatch"]:
-            chk.violation({k: m[k] for k in ("kind", "copy", "scenario", "side") if k in m}, m)
+            chk.violation({k: m[k] for k in ("kind", "copy", "scenario", "side", "records_state_of_deleted_channel") if k in m}, m)
     chk.set("states", res.distinct)
     chk.set("transitions", res.generated)
     chk.set("traces_validated_against_impl", tot["histories"] + tot["scenarios"])
